@@ -101,6 +101,9 @@ def gen_instruction(rng, addr_pool=None, valid_for_as=False, labels=None):
         return (rng.choice(["shl", "shr", "sar"]), ["$" + rng.choice(["0x1", "0x3", "0x4"]), r64()])
     if k == 20:
         return ("movzbl", [_mem(rng), r32()])
+    if not valid_for_as and rng.random() < 0.15:
+        # a direct-looking branch whose operand is not a hex address (symbolic / intel-style text)
+        return (rng.choice(["call", "jmp", "je"]), [rng.choice(["QWORD", "rax", "some_label", "0xzz"])])
     return (rng.choice(["inc", "dec", "neg", "not"]), [r64()])
 
 
@@ -511,3 +514,10 @@ def make_thin_archive(members: list, subdir="thin_m"):
         return None, None
     with open(os.path.join(d, "libthin.a"), "rb") as fh:
         return fh.read(), rels
+
+
+def gen_dense_source(rng, n):
+    """n one-byte instructions: a listing that is large compared with the object (about 36 characters per byte of code)."""
+    one = ["push %rax", "push %rbx", "pop %rcx", "pop %rdx", "ret", "nop", "leave", "push %rsi", "pop %rdi"]
+    out = ["\t.text", "L1:"] + ["\t" + rng.choice(one) for _ in range(n)] + ["\txor %eax,%eax", "\tmov $0x3c,%edi", "\tcltq", "\tret"]
+    return "\n".join(out) + "\n", [{"name": ".text", "raw": False, "data": False}]
